@@ -104,6 +104,25 @@ func hashcomBody(x *engine.X) {
 		x.Failf("hashcom/open/untouched", "%s: Open rejected the untouched (m, w, key, c): %v", id, err)
 	}
 	lt["accept-untouched"]++
+	if chunk == 0 {
+		// the message as a sub-slice of a longer live buffer (spare capacity behind it): committing and opening read the
+		// message and must leave everything behind it alone
+		x.Case(id + "/subslice")
+		record := append(append(make([]byte, 0, len(msg)+96), msg...), bytes.Repeat([]byte{0xc3, 0x5a, 0x01}, 32)...)
+		tail := append([]byte{}, record[len(msg):]...)
+		sub := record[:len(msg)]
+		c2, err := key.CommitWithWitness(sub, wit)
+		if err != nil || c2 != com {
+			x.Failf("hashcom/commit/subslice", "%s: committing to the same bytes held as a sub-slice of a longer buffer gives %x (err %v), not %x", id, c2[:], err, com[:])
+		}
+		if err := key.Open(com, sub, wit); err != nil {
+			x.Failf("hashcom/open/subslice", "%s: Open rejected the message held as a sub-slice of a longer buffer: %v", id, err)
+		}
+		if !bytes.Equal(record[len(msg):], tail) || !bytes.Equal(sub, msg) {
+			x.Failf("hashcom/mutates-argument", "%s: CommitWithWitness / Open wrote into the caller's buffer behind the message (spare capacity of the slice)", id)
+		}
+		lt["subslice"]++
+	}
 
 	// probe evaluates one altered tuple against the definition.
 	// (cases of messages above 4 KiB are counted but not entered into the distinct-case set: millions of keys)
